@@ -24,7 +24,6 @@ use scylla::client::session::Session;
 use scylla::client::session_builder::SessionBuilder;
 use scylla::errors::{NextPageError, NextRowError, PagerExecutionError, RequestAttemptError, RequestError};
 use scylla_cql_core::serialize::row::SerializedValues;
-use scylla::statement::prepared::PreparedStatement;
 use scylla::statement::unprepared::Statement;
 use scylla::verif_hooks::connection::{VerifConn, VerifConnOptions};
 use std::cell::RefCell;
@@ -135,6 +134,9 @@ struct Script {
     sent: Vec<Vec<i32>>,
     /// (position when the EXECUTE arrived, paging state it carried)
     execs: Vec<(usize, Option<Vec<u8>>)>,
+    /// prepared id of THIS case's statement (every case prepares its own statement text, so a
+    /// straggling request of an earlier case can never consume this case's script)
+    statement_id: Vec<u8>,
 }
 
 fn cols() -> Vec<Col> {
@@ -229,6 +231,9 @@ fn handler(script: Arc<Mutex<Script>>, min_conn: Arc<AtomicUsize>) -> Handler {
         }
         Parsed::Execute { id, params, .. } => {
             let mut s = script.lock().unwrap();
+            if *id != s.statement_id {
+                return vec![Action::Respond(RESP_ERROR, body_error(0x1001, "statement of another case", &[]))];
+            }
             let pos = s.pos;
             s.execs.push((pos, params.paging_state.clone()));
             let mut actions = Vec::new();
@@ -322,13 +327,14 @@ struct Env {
     node: MockNode,
     script: Arc<Mutex<Script>>,
     min_conn: Arc<AtomicUsize>,
-    conn: Option<(Client, PreparedStatement)>,
+    conn: Option<Client>,
 }
 
 thread_local! {
     static RT: tokio::runtime::Runtime = tokio::runtime::Builder::new_current_thread().enable_all().build().unwrap();
     static ENV: RefCell<Option<Env>> = const { RefCell::new(None) };
     static SENV: RefCell<Option<Env>> = const { RefCell::new(None) };
+    static CASE_NO: std::cell::Cell<u64> = const { std::cell::Cell::new(0) };
 }
 
 fn pager_error_label(e: &PagerExecutionError) -> String {
@@ -397,8 +403,6 @@ async fn run_case(case: &Case, ctx: &mut Ctx) -> String {
     if env.conn.is_none() {
         // connections accepted so far belong to abandoned clients
         env.min_conn.store(env.node.conn_shards().len(), Ordering::SeqCst);
-        let mut st = Statement::new(QUERY);
-        st.set_page_size(5000);
         if case.session {
             // a one-node cluster: the control connection's system.peers / system.local are answered by
             // the handler; default execution profile (DefaultRetryPolicy, no speculative execution)
@@ -414,14 +418,7 @@ async fn run_case(case: &Case, ctx: &mut Ctx) -> String {
                     return "HARNESS-ERROR".to_owned();
                 }
             };
-            let prepared = match session.prepare(st).await {
-                Ok(p) => p,
-                Err(e) => {
-                    ctx.fail(format!("harness: cannot prepare: {e}"));
-                    return "HARNESS-ERROR".to_owned();
-                }
-            };
-            env.conn = Some((Client::Sess(session), prepared));
+            env.conn = Some(Client::Sess(session));
         } else {
             let conn = match VerifConn::open(env.node.addr, VerifConnOptions::default()).await {
                 Ok(c) => c,
@@ -430,23 +427,33 @@ async fn run_case(case: &Case, ctx: &mut Ctx) -> String {
                     return "HARNESS-ERROR".to_owned();
                 }
             };
-            let prepared = match conn.prepare(&st).await {
-                Ok(p) => p,
-                Err(e) => {
-                    ctx.fail(format!("harness: cannot prepare: {e}"));
-                    return "HARNESS-ERROR".to_owned();
-                }
-            };
-            env.conn = Some((Client::Conn(conn), prepared));
+            env.conn = Some(Client::Conn(conn));
         }
-        // only page requests of the case proper are to be recorded
-        let mut sc = env.script.lock().unwrap();
-        sc.execs.clear();
     }
+    // every case prepares its own statement text (one PREPARE round trip): the prepared id tags the
+    // case's EXECUTE frames, so a request still in flight from an earlier case cannot touch this script
+    let case_no = CASE_NO.with(|c| {
+        c.set(c.get() + 1);
+        c.get()
+    });
+    let text = format!("{} WHERE case_no = {}", QUERY, case_no);
+    env.script.lock().unwrap().statement_id = md5ish(&text);
+    let mut st = Statement::new(text);
+    st.set_page_size(5000);
+    let prepared = match env.conn.as_ref().unwrap() {
+        Client::Conn(c) => c.prepare(&st).await,
+        Client::Sess(s) => s.prepare(st).await.map_err(|e| e.to_string()),
+    };
+    let mut prepared = match prepared {
+        Ok(p) => p,
+        Err(e) => {
+            ctx.fail(format!("harness: cannot prepare: {e}"));
+            return "HARNESS-ERROR".to_owned();
+        }
+    };
     let has_timeout_fault = case.pages.iter().any(|p| p.faults.contains(&'T'));
-    let dirty = case.pages.iter().any(|p| p.faults.contains(&'T') || p.faults.contains(&'c')) || matches!(case.consumer, Consumer::Drop(_));
-    let (conn, prepared0) = env.conn.as_ref().unwrap();
-    let mut prepared = prepared0.clone();
+    let dirty = case.pages.iter().any(|p| p.faults.contains(&'T') || p.faults.contains(&'c'));
+    let conn = env.conn.as_ref().unwrap();
     prepared.set_use_cached_result_metadata(case.skip);
     prepared.set_request_timeout(if has_timeout_fault { Some(REQUEST_TIMEOUT) } else { None });
 
